@@ -91,6 +91,12 @@ theorem decodeMeta_encodeMeta (v : Value) (hwf : wf v = true)
 
 example : (encodeMeta (metaOf exampleValue)).length < 2 ^ 32 := by decide
 
+/-- The literal one-pass transliteration of the Go encoder (dictionary threaded through the
+    traversal, ids as returned by `Add`) produces exactly the dictionary `metaOf v` and the bytes
+    `encode (metaOf v) v` the theorems above are about. -/
+theorem encode_one_pass (v : Value) : encSt [] v = (metaOf v, encode (metaOf v) v) :=
+  encSt_eq v [] (metaOf v) (List.prefix_refl _)
+
 /-- **C19 (codec), on bytes.** Decoding the two byte strings the encoder emits gives back the value. -/
 theorem decode_encode_bytes (v : Value) (hwf : wf v = true)
     (hlen : (encode (metaOf v) v).length < 2 ^ 32)
@@ -131,6 +137,16 @@ theorem unshred_shred (s : Schema) (v : Value) (hs : wfS s = true) (hv : distinc
     ∃ r, unshred s (shred s v) = some r ∧ canon r = canon v := by
   obtain ⟨r, hr, hc⟩ := shredOK s hs v hv
   exact ⟨r, by simp [unshred, hr, RRes.orNull], hc⟩
+
+/-- Typed columns: a primitive is written to `typed_value` exactly when `variantToParquetValue`
+    matches (`toCol … = some c`, `toCol_isSome`), and the parquet leaf value written (int8/int16
+    widened to INT32, decimal16 byte-reversed, uuid as 16 bytes, scale taken from the column type)
+    is converted back by `parquetToVariantValue` to the same primitive. -/
+theorem ofCol_toCol (t : PType) (p : Prim) (c : ColVal) (h : toCol t p = some c) :
+    ofCol t c = some p := ofCol_toCol' t p c h
+
+example : toCol (.dec16 38 2) (.dec16 2 (BitVec.ofInt 128 (-12345))) ≠ none := by decide
+example : toCol .int8 (.int8 0x80#8) = some (.i32 0xFFFFFF80#32) := by decide
 
 /-- a partially shredding schema: `a` as int8, `z` as a list of strings, `q` untyped, while the
     example value also has the fields `` and `m` (residual) and a `z` of another type. -/
